@@ -16,6 +16,10 @@ Reg(t)       == 100 + t
 MarkInit(t)  == TLCSet(Reg(t), 1)
 Mark(t, pos) == IF pos > TLCGet(Reg(t)) THEN TLCSet(Reg(t), pos) ELSE TRUE
 
+(* Stateless trace specs (each event judged on its own, e.g. one API call = one event) use Judge:
+   a failing event is reported and the walk continues, so every event gets a verdict in one pass. *)
+Judge(t, pos, ok) == IF ok THEN TRUE ELSE PrintT(<<"BAD", t, pos>>)
+
 Report ==
   /\ \A t \in 1..NT :
         \/ TLCGet(Reg(t)) = Len(Traces[t].ev) + 1
